@@ -102,12 +102,12 @@ def prepare(tier):
     memoisation cross-check."""
     from mc import runner
     from mc.lfring import core, selftest
+    _remove_stale_scratch()
     selftest.run()
     scratch = runner.scratch_dir("c22prep")
     try:
         cwd = os.getcwd()
         os.chdir(scratch)
-        from mc.lfring import spaces
         sample = [e for e in _elements(tier)][::max(1, len(_elements(tier)) // 6)]
         texts = []
         for memo in (True, False, True):
@@ -130,6 +130,18 @@ def prepare(tier):
                                       "generated code")
     finally:
         shutil.rmtree(scratch, ignore_errors=True)
+
+
+def _remove_stale_scratch():
+    """Worker directories of an earlier run that ended with a harness error
+    (finish() is not reached then) and whose parent process is gone."""
+    import glob
+    import re
+    base = os.environ.get("VERIF_SCRATCH") or "/dev/shm"
+    for path in glob.glob(os.path.join(base, "verif.c22-*.*")):
+        mat = re.search(r"verif\.c22-(\d+)\.\d+$", path)
+        if mat and not os.path.exists(f"/proc/{mat.group(1)}"):
+            shutil.rmtree(path, ignore_errors=True)
 
 
 def cases(tier):
